@@ -84,9 +84,10 @@ class DetectVarNames( ast.NodeVisitor ):
           x = v.id
           if   x in self.globals: n = (False, x)
           elif x in self.closure: n = (True, x)
-        elif isinstance( v, ast.Call ): # int(x)
-          for x in v.args:
-            self.visit(x)
+        elif isinstance( v, ast.Call ): # int(x), f(x)
+          # visit the call itself: a helper function called in the index
+          # is a call of the block (its reads count), not only its arguments
+          self.visit( v )
         elif isinstance( v, (ast.Subscript, ast.BinOp, ast.UnaryOp, ast.Compare, ast.IfExp) ):
           # s.x[ s.sel[0] ][0:4], s.x[ s.a + 1 ].f: the signals read by an
           # index expression are reads of the block even when the indexed
@@ -188,9 +189,10 @@ class DetectVarNames( ast.NodeVisitor ):
           x = v.id
           if   x in self.globals: n = (False, x)
           elif x in self.closure: n = (True, x)
-        elif isinstance( v, ast.Call ): # int(x)
-          for x in v.args:
-            self.visit(x)
+        elif isinstance( v, ast.Call ): # int(x), f(x)
+          # visit the call itself: a helper function called in the index
+          # is a call of the block (its reads count), not only its arguments
+          self.visit( v )
         elif isinstance( v, (ast.Subscript, ast.BinOp, ast.UnaryOp, ast.Compare, ast.IfExp) ):
           # s.x[ s.sel[0] ][0:4], s.x[ s.a + 1 ].f: the signals read by an
           # index expression are reads of the block even when the indexed
